@@ -655,7 +655,13 @@ func (cr *coreRun) clientTask(ci int, cs ClientSpec) {
 			return
 		}
 		if (op.Wait && !cr.body.Serial) || cs.Kind == "text" {
-			<-r.done
+			if cr.body.NoMonitor {
+				// without the monitor nobody recognises finding F8 (the reply went out under another
+				// request's id) while the run goes on: the client gives up after a long while
+				waitReply(r, timeoutDur(&op)+expiryDur(op.Expried, op.EFlag)+300*time.Second)
+			} else {
+				<-r.done
+			}
 		}
 	}
 }
